@@ -126,6 +126,7 @@ PROPS = {'C01': {'assumptions': ['hostile bytes inside histories are decoded und
                                'family:mutated-native-messages',
                                'family:mutated-wire-messages',
                                'family:pending-args-times-optionals',
+                               'family:reads-continue-after-errors',
                                'outcome:ok',
                                'outcome:err',
                                'cover:crafted:zst-bomb:vec',
@@ -135,7 +136,8 @@ PROPS = {'C01': {'assumptions': ['hostile bytes inside histories are decoded und
          'rule': 'hostile inputs (structure-aware mutations of native and reference-encoded messages, 16 hand-built bomb families: zero-size element vectors, '
                  'deep opt/vec/variant nesting to 10^6, self-containing records, huge table/arg/field counts, length bombs, primitive-vector overflow, future '
                  'types, over-long LEB128, many pending arguments x many optional values, random bytes after the magic) x expected type (corpus Rust type, '
-                 'random untyped types, none) x configuration (no quota / decoding quota in {0,1,100,10^4,10^6} / skipping quota / both, full error message '
+                 'random untyped types, none, or a SEQUENCE of 1..5 reads on one IDLDeserialize - native at the own type / at another struct or enum / untyped at a '
+                 'random type / IDLValue - each attempted whatever the earlier ones returned, then done()) x configuration (no quota / decoding quota in {0,1,100,10^4,10^6} / skipping quota / both, full error message '
                  'on/off, max_type_len) x thread stack in {256K,512K,2M,8M}. Monitors: no panic, no process death (journal protocol), with a decoding quota q: '
                  'element-access steps (hook) <= q+|input|+64, peak live allocation <= 8MiB+256|input|+512q, cumulative requested bytes <= '
                  "8MiB+256|input|+4096q. non-trivial: distinct (reference decoder's error site class, target kind)"},
@@ -145,12 +147,17 @@ PROPS = {'C01': {'assumptions': ['hostile bytes inside histories are decoded und
          'budget_thorough': 150,
          'lanes_quick': ['D', 'R'],
          'lanes_thorough': ['D', 'R'],
-         'required_counters': ['agree:native', 'agree:untyped', 'cover:surplus-arguments', 'cover:unmetered-fails'],
-         'rule': 'valid messages: corpus Rust type + 0..2 surplus arguments (native), and random wire/expected pairs incl. surplus fields, mismatched options, '
+         'required_counters': ['agree:native', 'agree:untyped', 'agree:native-related-wire', 'cover:surplus-arguments', 'cover:unmetered-fails',
+                               'cover:entry-point:decode_args_with_config_debug', 'cover:entry-point:IDLArgs::from_bytes_with_types_with_config',
+                               'agree:const-quota-wrapper:ok', 'agree:const-quota-wrapper:quota-error'],
+         'rule': 'valid messages: corpus Rust type + 0..2 surplus arguments (native), a corpus Rust type reading a message of a related wire type '
+                 '(fields added/dropped, values made optional, nat for int: native-related-wire), and random wire/expected pairs incl. surplus fields, mismatched options, '
                  'zero-sized elements, references (untyped). Each is decoded unmetered, with huge quotas (cost), at the exact cost, just below it in either '
                  'quota, above it, at random quota pairs, and with one quota only. Oracle: result equals the unmetered result or is a quota error; success iff '
                  'both quotas >= the measured cost; reported cost independent of the quotas; decoding cost >= number of wire value nodes; skipping cost >= '
-                 'skipped nodes; element-access steps (hook) <= decoding cost; decoding cost <= 10 x documented cost model + 1500. non-trivial: every message; '
+                 'skipped nodes; element-access steps (hook) <= decoding cost; decoding cost <= 10 x documented cost model + 1500; the other public entry points that take a '
+                 'configuration (decode_one_with_config, decode_args_with_config[_debug], Decode!([cfg]) and @Debug, IDLArgs::from_bytes_with_types_with_config, '
+                 'the six const-generic decode_*_with_*_quota wrappers) give the same result, cost and quota error at the same quotas. non-trivial: every message; '
                  'distinct by (target, length) / type shapes'},
  'C08': {'assumptions': ['host limits (excluded, counted): 128-bit integer range, fixed array length, duplicate map/set keys, BoundedVec limits, borrowed '
                          'slices need a blob/text/principal on the wire'],
@@ -284,6 +291,14 @@ PROPS = {'C01': {'assumptions': ['hostile bytes inside histories are decoded und
          'required_counters': ['agree:compile',
                                'agree:pretty_print',
                                'agree:export',
+                               'agree:get_metadata',
+                               'agree:instantiate_candid',
+                               'agree:merge_init_args',
+                               'agree:check_rust_type-accepts',
+                               'agree:check_rust_type-rejects',
+                               'cover:get_metadata-filters-definitions',
+                               'cover:instantiate_candid-with-init-args',
+                               'cover:merge_init_args-adds-arguments',
                                'checked:programs',
                                'cover:actor:service',
                                'cover:actor:by-name',
@@ -315,7 +330,7 @@ PROPS = {'C01': {'assumptions': ['hostile bytes inside histories are decoded und
                  'service must be structurally equal (gfp bisimulation requal: ids, method names, annotations, arg order, recursion) to the MODEL of the '
                  "source program computed from our AST by the spec's desugaring; service_equal(original, printed) must be Ok; second call gives identical "
                  'text; 23 Rust types exported via TypeContainer::add + compile(env, None): printed env re-checks to the same definitions and the root equals '
-                 'a hand-written model of the Rust type. non-trivial = distinct (shape of all defs + actor, name class)'},
+                 'a hand-written model of the Rust type. non-trivial = distinct (shape of all defs + actor, name class); clients of the printer on the same programs: get_metadata (filtered environment, init args dropped), instantiate_candid and merge_init_args must yield the model\'s service / init argument types; check_rust_type::<T> accepts T\'s exported type and rejects exported types with another meaning'},
  'C13': {'assumptions': ['Inputs with a backslash directly before a non-ASCII character make the string sub-lexer slice a str inside a character (UB; SIGABRT '
                          'under debug assertions). They are examined in a child process (the worker re-executed with VERIF_C13_CHILD_INPUT): shard 0 runs 7 '
                          'witnesses (one per entry point) + at most 4 generated inputs that way; all other such inputs are examined in-process with the '
